@@ -33,6 +33,44 @@ HEADER = "From Attrs Require Import Base Core.Attr Core.Init C16.Model C16.Corr.
 CASE_TYPE = "case"
 CHECK = "check_case"
 MODEL = "model_of"
+RULE = ("histories of operations on caller-owned objects: decorator objects (22 argument sets of "
+        "attr.s / attrs.define / frozen / mutable, incl. auto_detect, frozen, cache_hash, kw_only, "
+        "auto_attribs, on_setattr given as NO_OP / hook / list, slots, these=), attr.ib() objects, "
+        "these / make_class attrs / class_body dicts, metadata dicts, validator / converter / hook "
+        "lists; definitions = applying a decorator object to a freshly exec'ed class body from a "
+        "catalogue of 37 bodies (plain, annotated-only, mixed unannotated (auto_attribs fallback), own "
+        "__hash__/__eq__/__setattr__/__init__, pre/post-init hooks, frozen / hooked / plain / post-init "
+        "/ exception bases, converters, validators, field-level hooks, kw_only fields, bad default "
+        "order, ClassVar, init=False, metadata) or make_class. Generated: ALL ordered pairs (A,B) of "
+        "bodies under one shared decorator object (quick: full catalogue for 2 decorators, a 16-body "
+        "core for 10, 8 sampled bodies for the rest; thorough: full catalogue for all 22), sampled "
+        "histories of 3-5 bodies under one decorator, shared `these` dict (one or two decorator "
+        "objects, dict / attr.ib mutated in between), make_class with shared attrs dict holding the "
+        "three hook names and shared class_body dict (mutated in between, mixed with attr.s(these=)), "
+        "one attr.ib() object placed in several bodies under different decorators, shared metadata "
+        "dict and validator/converter/hook lists mutated between and after definitions. For every "
+        "definition k the harness also runs the history WITHOUT the other definitions; compared: "
+        "fingerprint of class k observed at the END of the full history (definition exception class; "
+        "fields: name, kw_only, default, init, validator and converter members by firing them, "
+        "metadata keys, inherited; who provides __hash__/__eq__/__init__; __init__ signature; "
+        "pre/post-init hooks running; hash(inst) working; what fires on `inst.f = v` per field or "
+        "FrozenInstanceError) == fingerprint alone == model prediction, and container contents at "
+        "the end == what the caller put there. distinct = distinct history; non-trivial = at least "
+        "two definitions")
+EXTRA_TRUSTED = [
+    "the facts about the eight base classes used by the catalogue (frozen, exception, "
+    "__attrs_own_setattr__, hashable, inherited hooks, own fields) are written down in the harness "
+    "(BASE_FACTS) and passed to the model as part of the class specification",
+    "CPython class creation: a namespace with __eq__ and no __hash__ gets __hash__ = None (modelled "
+    "in `observe`); closures/cells semantics of nested functions (the model's explicit cell records)",
+]
+ASSUMPTIONS = [
+    "single-level inheritance from one of the catalogue bases; field names without leading "
+    "underscore; no field_transformer, no type= argument, no cmp=; validator/converter lists are "
+    "non-empty when handed to attr.ib (an empty list is kept as-is by attrib() and is not callable)",
+    "the global validator switch is on while fingerprints are taken; linecache entries are not part "
+    "of the fingerprint (C17)",
+]
 
 # ------------------------------------------------------------------------------------------
 # recording callables
@@ -780,7 +818,7 @@ DECOS = {
 
 CORE_BODIES = ["plain_ib", "plain_ann", "mixed_unann", "own_hash", "own_eq", "own_setattr_v",
                "fb_conv", "fb_own_setattr", "hb_plain", "hb_val", "exc_base", "conv_val",
-               "field_hooks", "bad_order", "pre_post", "own_init"]
+               "field_hooks", "bad_order", "pre_post"]
 CORE_DECOS = ["s_ad_frozen", "s_ad", "s", "define", "define_dict", "frozen", "mutable_hooks",
               "s_ad_frozen_cache", "s_kw", "define_noop", "s_ad_slots", "s_validate"]
 
@@ -959,13 +997,13 @@ def generate(tier, seed):
     names = list(BODIES)
     # 1. one shared decorator object, all ordered pairs
     for d in DECOS:
-        pool = names if (thorough or d in CORE_DECOS[:4]) else CORE_BODIES
+        pool = names if (thorough or d in ("s_ad_frozen", "define")) else CORE_BODIES
         if not thorough and d not in CORE_DECOS:
             pool = rng.sample(CORE_BODIES, 8)
         for a, bb in itertools.product(pool, repeat=2):
             cases.append(shared_deco_case(d, [a, bb]))
     # 2. triples / longer histories (sampled)
-    n_long = 6000 if thorough else 500
+    n_long = 6000 if thorough else 300
     dn = list(DECOS)
     for _ in range(n_long):
         d = rng.choice(dn)
